@@ -21,7 +21,8 @@ ANCHORS = [
 DECIDING = ["construct", "record-self-synonym"]
 RULE = (
     "case = a clash-free record collection with 0-2 injected clashes of a chosen kind (canonical/canonical, "
-    "canonical/synonym, synonym/canonical, synonym/synonym; CURIE side, URI side or both), constructed in every order "
+    "canonical/synonym, synonym/canonical, synonym/synonym; CURIE side, URI side or both; sometimes a record repeats one "
+    "of its own synonyms, which is not a clash), constructed in every order "
     "(all permutations up to 4 records, sampled above) through Converter(...) and, re-expressed in each format, through "
     "from_prefix_map / from_priority_prefix_map / from_reverse_prefix_map / from_extended_prefix_map / from_jsonld; every "
     "25th case is a large valid map (100-400 records with nested URI prefixes), sometimes with one clash hidden in it. The "
@@ -72,6 +73,16 @@ def run_case(ctx, g, rng):
             lab = inject(rng, recs, s, rng.choice(LEVELS))
             if lab:
                 labels.append(lab)
+    if rng.random() < 0.2:
+        # a record may repeat one of its own synonyms: that is one claim by one record, not a clash
+        i = rng.randrange(len(recs))
+        r = recs[i]
+        if r.psyn and rng.random() < 0.5:
+            recs[i] = r._replace(psyn=r.psyn + (rng.choice(r.psyn),))
+            labels.append("repeat-own-curie-synonym")
+        elif r.usyn:
+            recs[i] = r._replace(usyn=r.usyn + (rng.choice(r.usyn),))
+            labels.append("repeat-own-uri-synonym")
     cl = spec.clashes(recs)
     kinds = "+".join(sorted(set(labels))) or "none"
     both = any(x[0] == "uri" for x in cl) and any(x[0] == "curie" for x in cl)
@@ -102,7 +113,7 @@ def run_case(ctx, g, rng):
     for r in recs:
         for p in spec.all_p(r):
             pm.setdefault(p, r.uri_prefix)
-        ppm.setdefault(r.prefix, list(dict.fromkeys(spec.all_u(r))))
+        ppm.setdefault(r.prefix, spec.all_u(r))
         for u in spec.all_u(r):
             rpm.setdefault(u, r.prefix)
     # prefix maps cannot hold two keys for one URI prefix without clashing: that is the point
